@@ -223,7 +223,7 @@ def modelKind? (kind : String) (p1 p2 : Nat) : Option ModelKind :=
   | "alertthr" => some (.alertthr p1 false)
   | "alertthrsco" => some (.alertthr p1 true)
   | "winsample" | "winstatecount" | "winwhere" | "winchange" | "winderiv" | "winsum" | "wincount" | "winstatecountfn"
-  | "winalert" | "winalertcount" => some (.win2 p1 p2 kind)
+  | "winalert" | "winalertcount" | "wineval" => some (.win2 p1 p2 kind)
   | "windowt" => some (.windowt p1 p2 false false)
   | "windowtalign" => some (.windowt p1 p2 true false)
   | "windowtfill" => some (.windowt p1 p2 false true)
@@ -272,6 +272,7 @@ def runModel (k : ModelKind) (items : List (Item Pt)) : List String :=
     | "winsum" => pipe (iqlNodeB .sum) {}
     | "winalert" => pipe (alertThrNodeB (critOnly 5)) ()
     | "winalertcount" => pipe (alertCountNodeB (.gt 4)) ()
+    | "wineval" => pipe evalCountAddNodeB ()
     | _ => pipe (iqlNodeB .count) {}
   | .windowt p e align fill =>
     -- C03's window model as a grouped receiver; the sink sees the batches themselves
